@@ -116,6 +116,16 @@ func Groups() map[string]*Group {
 		}
 	}
 	add("time", times...)
+	// timewide: first/last packet times a few seconds and an hour apart, for time filters with field arithmetic
+	var tw []func(*Rec)
+	offs := []time.Duration{0, time.Second, 2 * time.Second, 3 * time.Second, 4 * time.Second, 5 * time.Second, 6 * time.Second, time.Hour, time.Hour + 5*time.Second}
+	for i, fo := range offs {
+		for _, lo := range offs[i:] {
+			f, l := T0.Add(fo), T0.Add(lo)
+			tw = append(tw, func(r *Rec) { r.FTime, r.LTime = f, l })
+		}
+	}
+	add("timewide", tw...)
 	for _, t := range []string{"tag/a", "tag/b", "mark/m", "service/s", "generated/g"} {
 		var v []func(*Rec)
 		for _, st := range []TagState{TagMatching, TagFailing, TagUncertainMatching, TagUncertainFailing} {
